@@ -459,3 +459,26 @@ claim(
     "method name; unresolved calls (builtins) are counted in the evidence.",
     "DESIGN.md section 5 C09",
 )
+
+claim(
+    "C02",
+    "EXC",
+    "static exception-escape analysis: kind inference (must-not facts over a structured dataflow) x closed risk-primitive table, handler subtraction over the exception hierarchy, context-sensitive summaries over the resolved call graph incl. the filter registry through its decorator wrappers",
+    "Full structural decision for the armed primitive table under stated assumptions: no "
+    "(primitive site, non-Liquid exception class) pair escapes BoundTemplate.render / render_async "
+    "— every pair the kind lattice cannot discharge is a hand-reviewed row (value-level argument "
+    "recorded, several with machine-checked side conditions) or a listed open finding; parse-time "
+    "exceptions are funnelled by Environment.from_string's catch-all (shape checked, escape set of "
+    "from_string empty) and TypeError from any filter body by the decorator wrappers and "
+    "Filter.evaluate* (shape checked). A new unguarded int()/float()/Decimal()/math.*/division/"
+    "subscript/decode/encode/fromtimestamp/strftime/islice/next/assert/%-format/raise of a "
+    "builtin exception on data-kinded values anywhere reachable from render is reported with its "
+    "witness chain; a narrowed or removed handler re-exposes the sites it covered.",
+    "Trusted: the primitive table (CPython/stdlib documented behaviour; dateutil, babel and pytz "
+    "rows are trusted) and the kind transfer table in sa/kinds.py; name-based method resolution "
+    "(over-approximate) with arity filtering; the reviewed rows in sa/props/c02.py. Out of scope: "
+    "user drops/custom filters, AttributeError/TypeError on values of unknown kind, "
+    "str() of over-long ints outside the two repaired funnels (A-INTSTR), MemoryError/"
+    "RecursionError (C09), third-party internals beyond the trusted rows.",
+    "DESIGN.md section 4 (EXC), section 5 C02, Appendix A",
+)
